@@ -90,6 +90,7 @@ impl<'a> Oracle<'a> {
             "C07" => self.c07(&toks),
             "C18" => self.c18(&toks),
             "C16" => self.c16(&toks),
+            "C13" => self.c13(&toks),
             "C17" => self.c17(&toks),
             _ => "SKIP".to_string(),
         }));
@@ -310,6 +311,78 @@ impl<'a> Oracle<'a> {
                 let v: u8 = h.into();
                 if v as usize != i { return fail(format!("VirtualHydrogen #{} converts to {}", i, v)) }
                 "OK".to_string()
+            }
+            _ => "SKIP".to_string(),
+        }
+    }
+}
+
+impl<'a> Oracle<'a> {
+    // ---------------- C13: ring-closure numbers are recycled and never run out early ----------------
+    fn c13(&mut self, toks: &[&str]) -> String {
+        match toks {
+            ["POOL", rest @ ..] => {
+                let mut pairs: Vec<(usize, usize)> = Vec::new();
+                if !(rest.len() == 1 && rest[0] == "-") {
+                    for x in rest.iter() {
+                        let mut p = x.splitn(2, '-');
+                        let a = p.next().and_then(|v| v.parse().ok());
+                        let b = p.next().and_then(|v| v.parse().ok());
+                        match (a, b) { (Some(a), Some(b)) => pairs.push((a, b)), _ => return "SKIP".to_string() }
+                    }
+                }
+                let mut pool = purr::verif::JoinPool::new();
+                let mut open: Vec<((usize, usize), usize)> = Vec::new(); // unordered pair -> number
+                for (i, (a, b)) in pairs.iter().enumerate() {
+                    let key = if a <= b { (*a, *b) } else { (*b, *a) };
+                    let existing = open.iter().position(|(k, _)| *k == key);
+                    let too_many = existing.is_none() && open.len() >= 99;
+                    let r = catch_unwind(AssertUnwindSafe(|| pool.hit(*a, *b)));
+                    let n = match r {
+                        Ok(r) => rnum_s(self.t, &r).parse::<usize>().unwrap(),
+                        Err(_) => {
+                            if too_many { return "OK".to_string() } // more than 99 open at the same time: outside the property
+                            return fail(format!("hit #{} ({},{}) panics with only {} closures open", i, a, b, open.len()))
+                        }
+                    };
+                    match existing {
+                        Some(j) => {
+                            let (_, m) = open.remove(j);
+                            if m != n { return fail(format!("hit #{} closes pair ({},{}) with number {}, it was opened with {}", i, a, b, n, m)) }
+                        }
+                        None => {
+                            let mut want = 1;
+                            while open.iter().any(|(_, m)| *m == want) { want += 1 }
+                            if n != want { return fail(format!("hit #{} opens pair ({},{}) with number {}, the smallest number not open is {}", i, a, b, n, want)) }
+                            open.push((key, n));
+                        }
+                    }
+                }
+                "OK".to_string()
+            }
+            ["WALK", rest @ ..] => {
+                let g = match parse_graph(rest) { Some(g) => g, None => return "SKIP".to_string() };
+                let mut rec = Rec::new(self.t);
+                let r = catch_unwind(AssertUnwindSafe(|| purr::walk::walk(g, &mut rec)));
+                let mut open: Vec<usize> = Vec::new();
+                let mut max_open = 0;
+                for (i, e) in rec.events.iter().enumerate() {
+                    if let Ev::Join(_, n) = e {
+                        if let Some(j) = open.iter().position(|m| m == n) { open.remove(j); }
+                        else {
+                            let mut want = 1;
+                            while open.contains(&want) { want += 1 }
+                            if *n != want { return fail(format!("event #{} opens ring number {}, the smallest number not open is {}", i, n, want)) }
+                            open.push(*n);
+                            if open.len() > max_open { max_open = open.len() }
+                        }
+                    }
+                }
+                match r {
+                    Ok(Ok(())) => if !open.is_empty() { fail(format!("ring numbers {:?} are left open at the end of a successful traversal", open)) } else { "OK".to_string() },
+                    Ok(Err(_)) => "OK".to_string(),
+                    Err(_) => if max_open >= 99 { "OK".to_string() } else { fail(format!("traversal panics at {} with at most {} closures open", imp::last_panic(), max_open)) },
+                }
             }
             _ => "SKIP".to_string(),
         }
